@@ -59,14 +59,6 @@ type Case struct {
 }
 
 var elemTypes = map[string]ad.ScalarType{}
-var typeOrder = []string{"f64", "f32", "int", "r64"}
-
-func initTypes() {
-	elemTypes["f64"] = ad.Float64Type
-	elemTypes["f32"] = ad.Float32Type
-	elemTypes["int"] = ad.IntType
-	elemTypes["r64"] = ad.Real64Type
-}
 
 // ---------------------------------------------------------------- builders
 
@@ -80,32 +72,7 @@ func buildVec(tn string, v *V, base float64) ad.Vector {
 		return r
 	}
 	if v.Cap > v.N {
-		switch tn {
-		case "f64":
-			s := make([]float64, v.Cap)
-			for i := range s {
-				s[i] = base + float64(i)
-			}
-			return ad.DenseFloat64Vector(s[:v.N])
-		case "f32":
-			s := make([]float32, v.Cap)
-			for i := range s {
-				s[i] = float32(base) + float32(i)
-			}
-			return ad.DenseFloat32Vector(s[:v.N])
-		case "int":
-			s := make([]int, v.Cap)
-			for i := range s {
-				s[i] = int(base) + i
-			}
-			return ad.DenseIntVector(s[:v.N])
-		default:
-			s := make([]float64, v.Cap)
-			for i := range s {
-				s[i] = base + float64(i)
-			}
-			return ad.NewDenseReal64Vector(s)[:v.N]
-		}
+		return denseVecOf(tn, v.Cap, v.N, base)
 	}
 	r := ad.NullDenseVector(t, v.N)
 	for i := 0; i < v.N; i++ {
@@ -126,32 +93,7 @@ func buildMat(tn string, m *M, base float64) (ad.Matrix, ad.Matrix) {
 			}
 		}
 	} else {
-		switch tn {
-		case "f64":
-			s := make([]float64, m.L)
-			for i := range s {
-				s[i] = base + float64(i)
-			}
-			b = ad.NewDenseFloat64Matrix(s, m.R, m.C)
-		case "f32":
-			s := make([]float32, m.L)
-			for i := range s {
-				s[i] = float32(base) + float32(i)
-			}
-			b = ad.NewDenseFloat32Matrix(s, m.R, m.C)
-		case "int":
-			s := make([]int, m.L)
-			for i := range s {
-				s[i] = int(base) + i
-			}
-			b = ad.NewDenseIntMatrix(s, m.R, m.C)
-		default:
-			s := make([]float64, m.L)
-			for i := range s {
-				s[i] = base + float64(i)
-			}
-			b = ad.NewDenseReal64Matrix(s, m.R, m.C)
-		}
+		b = denseMatOf(tn, m.L, m.R, m.C, base)
 	}
 	v := b
 	for _, o := range m.Ops {
@@ -335,34 +277,7 @@ func execCall(c *Call, tn string) Obs {
 	case "VNewSparse":
 		before = func() string { return "" }
 		run = func() error {
-			nv := c.I[0]
-			var v ad.Vector
-			switch tn {
-			case "f64":
-				vals := make([]float64, nv)
-				for i := range vals {
-					vals[i] = 1 + float64(i)
-				}
-				v = ad.NewSparseFloat64Vector(c.Pi, vals, c.I[1])
-			case "f32":
-				vals := make([]float32, nv)
-				for i := range vals {
-					vals[i] = 1 + float32(i)
-				}
-				v = ad.NewSparseFloat32Vector(c.Pi, vals, c.I[1])
-			case "int":
-				vals := make([]int, nv)
-				for i := range vals {
-					vals[i] = 1 + i
-				}
-				v = ad.NewSparseIntVector(c.Pi, vals, c.I[1])
-			default:
-				vals := make([]float64, nv)
-				for i := range vals {
-					vals[i] = 1 + float64(i)
-				}
-				v = ad.NewSparseReal64Vector(c.Pi, vals, c.I[1])
-			}
+			v := sparseVecOf(tn, c.Pi, c.I[0], c.I[1])
 			o.Out = []int{v.Dim()}
 			return nil
 		}
@@ -499,32 +414,7 @@ func execCall(c *Call, tn string) Obs {
 	case "MNewSparse":
 		before = func() string { return "" }
 		run = func() error {
-			nv := c.I[0]
-			var m ad.Matrix
-			switch tn {
-			case "f64", "r64":
-				vals := make([]float64, nv)
-				for i := range vals {
-					vals[i] = 1 + float64(i)
-				}
-				if tn == "f64" {
-					m = ad.NewSparseFloat64Matrix(c.Pi, c.Pj, vals, c.I[1], c.I[2])
-				} else {
-					m = ad.NewSparseReal64Matrix(c.Pi, c.Pj, vals, c.I[1], c.I[2])
-				}
-			case "f32":
-				vals := make([]float32, nv)
-				for i := range vals {
-					vals[i] = 1 + float32(i)
-				}
-				m = ad.NewSparseFloat32Matrix(c.Pi, c.Pj, vals, c.I[1], c.I[2])
-			default:
-				vals := make([]int, nv)
-				for i := range vals {
-					vals[i] = 1 + i
-				}
-				m = ad.NewSparseIntMatrix(c.Pi, c.Pj, vals, c.I[1], c.I[2])
-			}
+			m := sparseMatOf(tn, c.Pi, c.Pj, c.I[0], c.I[1], c.I[2])
 			a, b := m.Dims()
 			o.Out = []int{a, b}
 			return nil
@@ -558,7 +448,7 @@ func execCall(c *Call, tn string) Obs {
 // ---------------------------------------------------------------- Coq printing
 
 func coqV(v *V) string {
-	if v.K == "dense" && curType == "r64" && realVecMatters {
+	if v.K == "dense" && isRealType(curType) && realVecMatters {
 		return fmt.Sprintf("(mkvec DenseR %s %s)", ZI(v.N), ZI(v.Cap))
 	}
 	if v.K == "sparse" {
@@ -575,7 +465,7 @@ func coqM(m *M) string {
 	k := "Dense"
 	if m.K == "sparse" {
 		k = "Sparse"
-	} else if curType == "r64" && (realMatMatters || len(m.Ops) > 0) {
+	} else if isRealType(curType) && (realMatMatters || len(m.Ops) > 0) {
 		k = "DenseR"
 	}
 	s := fmt.Sprintf("(mnew %s %s %s %s)", k, ZI(m.L), ZI(m.R), ZI(m.C))
@@ -643,7 +533,7 @@ func coqCall(c *Call) string {
 		return fmt.Sprintf("%s %s %s", c.Op, coqM(c.MR), zs(c.Pi))
 	case "MNewDense":
 		k := "Dense"
-		if curType == "r64" {
+		if isRealType(curType) {
 			k = "DenseR"
 		}
 		return fmt.Sprintf("MNewDense %s %s %s %s", k, I(0), I(1), I(2))
